@@ -9,7 +9,7 @@ import sys
 HERE = os.path.dirname(os.path.abspath(__file__))
 ROOT = os.path.dirname(HERE)
 VENV_PY = os.environ.get("PYVC_PYTHON", "/venv/bin/python")
-REPLAY_DIR = os.path.join(ROOT, "replays")
+REPLAY_DIR = os.environ.get("PYVC_REPLAY_DIR", os.path.join(ROOT, "replays"))
 
 NAME_RE = re.compile(r"^(C\d+)/(?P<cls>\w+)\.(?P<meth>\w+)@(?P<def>[\w.:]+)/(?P<role>[\w+-]+)/(?P<clause>.+)$")
 
